@@ -16,6 +16,7 @@ CONSTANTS
  ObsFilters = {"none", "t1"}
  ListConc = FALSE
  CowIndex = FALSE
+ InvAfterDel = FALSE
 INIT MInit
 NEXT MNext
 VIEW MView
